@@ -200,6 +200,22 @@ def run(F, R, tier):
             if op is None:
                 if p == "compiler::Compiler::emit":
                     continue  # forwards its own parameters to make()
+                # an opcode chosen into a local first (`let opcode = match .. { .. => Opcode::X, .. }`): every value it can hold
+                a0 = H.strip(args[0])
+                lid = H.local_id(a0)
+                cands = None
+                if lid is not None:
+                    lets = [x for x in H.walk(b) if x.get("k") == "let" and x.get("pat", {}).get("k") == "bind" and x["pat"].get("id") == lid and x.get("init") is not None]
+                    reassigned = any(x.get("k") in ("assign", "assignop") and H.local_id(H.strip(x["l"])) == lid for x in H.walk(b))
+                    if len(lets) == 1 and not reassigned:
+                        cands = [H.ctor_of(H.strip(v)) for v in H.value_leaves(lets[0]["init"])]
+                if cands and all(cands):
+                    for co in sorted(set(cands)):
+                        opn = H.last(co)
+                        need = len(defs.get(opn, {}).get("widths", []))
+                        R.ob("operand-count", "%s#%d %s" % (p, k, opn), cnt is not None and cnt >= need and opn in defs,
+                             "%s operands passed, %d encoded (opcode held in a local)" % (cnt, need), F.loc(g, c.get("line")))
+                    continue
                 # dynamic opcode: change_operand re-encodes an existing jump with one operand
                 ok = p == "compiler::Compiler::change_operand" and cnt == 1
                 R.ob("operand-count", "%s#%d dynamic opcode" % (p, k), ok,
